@@ -316,6 +316,63 @@ def proxy_enum_sweep(ctx, keyfn=None):
                     ctx.count("proxy-enum-roundtrip")
 
 
+def proxy_boolean_spellings(ctx):
+    """the READING side of boolean attributes at the object model: xsd:boolean has four lexical forms (1, true, 0, false);
+    the library writes two of them, other producers the other two - every boolean property reads each form as its value"""
+    from pptx import Presentation
+    from pptx.chart.data import CategoryChartData
+    from pptx.enum.chart import XL_CHART_TYPE
+
+    C = "http://schemas.openxmlformats.org/drawingml/2006/chart"
+    A = "http://schemas.openxmlformats.org/drawingml/2006/main"
+    prs = Presentation(); slide = prs.slides.add_slide(prs.slide_layouts[6])
+    tbl = slide.shapes.add_table(2, 2, 0, 0, 99, 99).table
+    tb = slide.shapes.add_textbox(0, 0, 9, 9); run = tb.text_frame.paragraphs[0].add_run(); run.text = "x"
+    cd = CategoryChartData(); cd.categories = ["a", "b"]; cd.add_series("s", [1, 2])
+    chart = slide.shapes.add_chart(XL_CHART_TYPE.LINE_MARKERS, 0, 0, 99, 99, cd).chart
+    chart.has_legend = True
+    run.font.bold = True; run.font.italic = True
+    tblPr = tbl._tbl.tblPr
+    sites = [("table.%s" % n, tblPr, a, (lambda n=n: getattr(tbl, n))) for n, a in
+             (("first_row", "firstRow"), ("first_col", "firstCol"), ("last_row", "lastRow"), ("last_col", "lastCol"),
+              ("horz_banding", "bandRow"), ("vert_banding", "bandCol"))]
+    rPr = run._r.rPr
+    sites += [("font.bold", rPr, "b", lambda: tb.text_frame.paragraphs[0].runs[0].font.bold),
+              ("font.italic", rPr, "i", lambda: tb.text_frame.paragraphs[0].runs[0].font.italic)]
+    plot = chart.plots[0]
+    plot.vary_by_categories = False
+    vc = plot._element.find("{%s}varyColors" % C)
+    sites.append(("plot.vary_by_categories", vc, "val", lambda: chart.plots[0].vary_by_categories))
+    ser = plot.series[0]; ser.smooth = True
+    sm = ser._element.find("{%s}smooth" % C)
+    sites.append(("series.smooth", sm, "val", lambda: chart.plots[0].series[0].smooth))
+    chart.legend.include_in_layout = False
+    ov = chart.legend._element.find("{%s}overlay" % C)
+    sites.append(("legend.include_in_layout", ov, "val", lambda: chart.legend.include_in_layout))
+    ax = chart.value_axis; ax.visible = False
+    de = ax._element.find("{%s}delete" % C)
+    sites.append(("axis.visible(c:delete)", de, "val", lambda: not chart.value_axis.visible))
+    ax.tick_labels.number_format_is_linked = True
+    nf = ax._element.find("{%s}numFmt" % C)
+    sites.append(("tick_labels.number_format_is_linked", nf, "sourceLinked", lambda: chart.value_axis.tick_labels.number_format_is_linked))
+    plot.has_data_labels = True
+    dl = plot.data_labels; dl.show_value = True
+    sv = dl._element.find("{%s}showVal" % C)
+    sites.append(("data_labels.show_value", sv, "val", lambda: chart.plots[0].data_labels.show_value))
+    for name, el, attr, get in sites:
+        if el is None:
+            continue
+        for text, want in (("1", True), ("true", True), ("0", False), ("false", False)):
+            el.set(attr, text)
+            try:
+                got = get()
+            except Exception as e:  # noqa
+                got = f"{type(e).__name__}: {str(e)[:80]}"
+            ctx.case(key=("boolean-spelling", name, text)); ctx.count("proxy-boolean-spellings")
+            if got is not want:
+                ctx.fail("boolean-spelling:" + name, f'{name}: the attribute {attr}="{text}" (a lexical form of xsd:boolean) reads {got!r}', {"property": name, "text": text})
+
+
 def proxy_exact_integers(ctx):
     """values that ARE representable are written exactly: every font size from 1 pt to 60 pt in hundredths of a point, every
     line spacing / space before in hundredths of a point up to 40 pt, every 127th EMU margin - assigned as the Length the
@@ -521,6 +578,7 @@ def correspond(ctx):
                          {"type": name, "lexical": lex})
     attr_history_independence(ctx)
     proxy_exact_integers(ctx)
+    proxy_boolean_spellings(ctx)
     rejected_is_noop(ctx)
     proxy_rejected_noop(ctx)
     out = ctx.driver.run(lines)
